@@ -232,12 +232,25 @@ def run(ctx):
                 det += f"; skipping is controlled by one Cell::get test={g and len(sw)==1}"
         ctx.ob("R2.track-reaches-register", "track_allocation", ok, tb.loc(), det)
 
-    # R3
-    for name in ("TLS_COUNTER_PTR", "TLS_INIT_GUARD"):
-        st = [s for p, s in prog.statics.items() if p.endswith("allocator::" + name)]
-        ok = bool(st) and any("thread::LocalKey" in s["ty"]["s"] or "thread::local::LocalKey" in s["ty"]["s"] for s in st)
-        ctx.ob("R3.thread-local", name, ok, st[0]["span"]["file"] + ":" + str(st[0]["span"]["line"]) if st else "",
-               f"type {st[0]['ty']['s'] if st else 'missing'}")
+    # R3: the per-thread counter pointer and the bootstrap flag live in thread-local storage (as two statics, or grouped in one)
+    def holders(pattern):
+        out = []
+        for p_, s_ in prog.statics.items():
+            if "alloc_tracker::allocator::" not in p_ or "__RUST_STD_INTERNAL" in p_:
+                continue   # (the thread_local! macro's own helper statics are not program state)
+            tys = [s_["ty"]["s"]]
+            for a in s_["ty"].get("adts", []) + s_["ty"].get("owned", []):
+                ad = prog.adts.get(a)
+                if ad and a.startswith("alloc_tracker::"):
+                    tys += [f["ty"]["s"] for v in ad.get("variants", []) for f in v["fields"]]
+            if any(pattern in t for t in tys):
+                out.append((p_, s_))
+        return out
+    for name, pattern in (("TLS_COUNTER_PTR", "OnceCell<*const alloc_tracker::allocator::PerThreadCounters>"), ("TLS_INIT_GUARD", "Cell<bool>")):
+        st = holders(pattern)
+        ok = bool(st) and all("thread::LocalKey" in s_["ty"]["s"] or "thread::local::LocalKey" in s_["ty"]["s"] for _p, s_ in st)
+        ctx.ob("R3.thread-local", name, ok, st[0][1]["span"]["file"] + ":" + str(st[0][1]["span"]["line"]) if st else "",
+               f"statics holding a `{pattern.split('::')[-1] if '::' in pattern else pattern}`: {[p_.split('::')[-1] + ': ' + s_['ty']['s'][:70] for p_, s_ in st] or 'missing'}")
     gi = prog.one("allocator::get_or_init_thread_counters")
     if gi is None:
         ctx.missing("R3.register-before-publish", "allocator::get_or_init_thread_counters")
